@@ -31,7 +31,7 @@ ASSUMPTIONS = [
 ]
 CONFIG = {
     "quick": {"examples": 800, "shards": 16, "shrink_s": 40, "time_budget_s": 270},
-    "thorough": {"examples": 5000, "shards": 16, "shrink_s": 200, "time_budget_s": 1500},
+    "thorough": {"examples": 25000, "shards": 16, "shrink_s": 200, "time_budget_s": 1500},
 }
 BLOCKS = ["GroupNorm", "GroupNorm", "LayerNorm", "VN", "VN", "MaxNormPool", "max_pool", "average_pool", "mi_average_pool", "unpool"]
 ACTS = {"relu": jax.nn.relu, "gelu": jax.nn.gelu, "tanh": jax.nn.tanh}
